@@ -201,6 +201,10 @@ impl PathParser {
                 self.update_position(self.start_pos.ok_or_else(|| {
                     SvgdxError::InvalidData("Cannot 'z' without start position".to_owned())
                 })?);
+                // closepath takes no parameters, so can't be implicitly repeated:
+                // whatever follows must be a new command (or this would never advance).
+                self.tokens.skip_wsp_comma();
+                self.command = None;
             }
             'C' => {
                 let _cp1 = self.tokens.read_coord()?; // control point 1
